@@ -345,8 +345,8 @@ PROPS['C17'] = {
              '`% bound`; statistical closeness of non-power-of-two bounds is not decided.',
 }
 PROPS['C20'] = {
-    'rules': [R(op.rule_OP1, modules=('finfields', 'gfpx')), R(op.rule_OP2), R(op.rule_OP5)],
-    'floors': {'OP1': 15, 'OP2': 20, 'OP5': 4},
+    'rules': [R(op.rule_OP1, modules=('finfields', 'gfpx')), R(op.rule_OP2), R(op.rule_OP5), R(op.rule_OP10)],
+    'floors': {'OP1': 15, 'OP2': 20, 'OP5': 4, 'OP10': 4},
     'explanation': 'Operator-table clauses: for every class of finfields and gfpx the reflected operator of a non-commutative operation applies the same '
                    'primitive with (other, self) order and is not an alias of the forward one; comparison mirrors swap (OP1). Every in-place '
                    'operator that writes self.value reduces it modulo the field modulus before returning self (or stores the result of the helper the '
@@ -367,13 +367,14 @@ PROPS['C22'] = {
     'level': 'Static writer/reader agreement check over finfields. Decides the structural conditions for round trips for every field and length.',
 }
 PROPS['C23'] = {
-    'rules': [R(op.rule_OP1, modules=('gfpx',)), R(op.rule_OP4), R(op.rule_OP8)],
-    'floors': {'OP1': 10, 'OP4': 25, 'OP8': 4},
+    'rules': [R(op.rule_OP1, modules=('gfpx',)), R(op.rule_OP4), R(op.rule_OP8), R(op.rule_OP9)],
+    'floors': {'OP1': 10, 'OP4': 25, 'OP8': 4, 'OP9': 2},
     'explanation': 'Sibling clauses only: reflected polynomial operators apply the same primitive with swapped operands, comparison mirrors swap (OP1); '
                    'every Polynomial primitive that touches the coefficient-list representation is overridden or aliased in BinaryPolynomial, and the '
                    'public wrappers hand their operands to the primitive of the same name in the same order (OP4). In both representations _mod and _divmod '
                    'hand the dividend back unreduced exactly under deg a < deg b, with the degree taken from the representation\'s own _degree (OP8): '
-                   'the one clause of "deg r < deg b" that is visible in the shape of the code.',
+                   'the one clause of "deg r < deg b" that is visible in the shape of the code. The products _mul and _sq of the list representation allocate '
+                   'their coefficient list only for non-zero operands, decided over operand lengths 0..3 (OP9): zero keeps its single representation [].',
     'assumptions': ['the primitives themselves implement the ring operations correctly: not decided'],
     'level': 'Static override/agreement analysis of gfpx.Polynomial and BinaryPolynomial. Decides the clause "binary and generic representation agree" '
              'structurally (no primitive silently falls back to list code), operand order of reflected operators and the early-exit guard of the division '
